@@ -1,5 +1,5 @@
 """C03 — not(G) succeeds once, without bindings, iff G has no answer."""
-from solver import Solver, goal_kinds, real_calls, is_none, some_payload, str_cell, const_false
+from solver import outcome_of, Solver, goal_kinds, real_calls, is_none, some_payload, str_cell, const_false
 from sym import Walker, strip, show, mentions
 
 EXPLANATION = ("For `not` the solver arm is the semantics (given next_solution's contract for G), so the outcome table of "
@@ -51,10 +51,7 @@ def run(ctx):
         if not ms_reads or ms_reads[0][0] > si:
             r3, w3 = False, "the sub-search is not preceded by the one-shot guard on more_solutions"
         res = searches[0]["result"]
-        outcome = None
-        for c, v, bb in p.decisions:
-            if c == ("variant", res):
-                outcome = v
+        outcome = outcome_of(p, res)
         if outcome == "Some":
             n_some += 1
             if p.end != "return" or not is_none(p.ret):
